@@ -750,7 +750,9 @@ class StrategyBase(Node):
         # update data if this value is different or
         # if now has changed - avoid all this if not since it
         # won't change
-        if newpt or not is_zero(self._value - val) or not is_zero(self._notl_value - notl_val):
+        # (or if the net flows changed since the row was last written: the
+        # return is measured on last value + net flows)
+        if newpt or not is_zero(self._value - val) or not is_zero(self._notl_value - notl_val) or not is_zero(self._all_flows.values[inow] - self._net_flows):
             self._value = val
             _writeable_values(self._values)[inow] = val
 
